@@ -867,7 +867,13 @@ impl Lexer<'_> {
             }
             c if is_valid_unicode_sas_name_start(c) => {
                 self.lex_identifier();
-                self.set_pending_stat(true);
+                // A datalines block is lexed as a whole, including its
+                // terminating semicolon, which completes the statement
+                let stat_complete = self
+                    .buffer
+                    .last_token_info()
+                    .map_or(false, |t| t.token_type == TokenType::SEMI);
+                self.set_pending_stat(!stat_complete);
             }
             _ => {
                 // Something else must be a symbol or some unknown character
